@@ -235,37 +235,37 @@ def joinWith (d : Char) : List Str → Str
 
 def digitVal (c : Char) : Option Nat := if '0' ≤ c ∧ c ≤ '9' then some (c.toNat - 48) else none
 
-/-- leading decimal digits: (value, number of digits) -/
-def takeDigits : Str → Nat → Nat → Nat × Nat
-  | [], acc, cnt => (acc, cnt)
+/-- leading decimal digits: (value, number of digits, unread rest) -/
+def takeDigits : Str → Nat → Nat → Nat × Nat × Str
+  | [], acc, cnt => (acc, cnt, [])
   | c :: cs, acc, cnt =>
     match digitVal c with
     | some v => takeDigits cs (acc * 10 + v) (cnt + 1)
-    | none => (acc, cnt)
+    | none => (acc, cnt, c :: cs)
 
-/-- `std::istringstream(trim(s)) >> value`: optional sign, at least one digit, stops at the first non-digit
-    (trailing garbage is ignored), fails on overflow.  Returns sign and magnitude. -/
+/-- `String::parse` since 5a16de52a: `istringstream(trim(s)) >> value` must not fail AND must consume the whole
+    trimmed string: optional sign, at least one digit, nothing else.  Returns sign and magnitude. -/
 def scanInt (s : Str) : Option (Bool × Nat) :=
   let t := trim s
   let (neg, rest) := match t with
     | '-' :: r => (true, r)
     | '+' :: r => (false, r)
     | r => (false, r)
-  let (v, cnt) := takeDigits rest 0 0
-  if cnt = 0 then none else some (neg, v)
+  let (v, cnt, unread) := takeDigits rest 0 0
+  if cnt = 0 || !unread.isEmpty then none else some (neg, v)
 
-/-- `String::parse(int&)` (32-bit) -/
+/-- `String::parse(int&)` (32-bit; overflow fails) -/
 def parseInt (s : Str) : Option Int :=
   match scanInt s with
   | none => none
   | some (neg, v) => if neg then (if v ≤ 2147483648 then some (-(v : Int)) else none)
                      else (if v ≤ 2147483647 then some (v : Int) else none)
 
-/-- `String::parse(Index&)` (unsigned 64-bit; a minus sign negates modulo 2^64 as libstdc++ does) -/
+/-- `String::parse(Index&)` (unsigned 64-bit; since c82e1d7f9 a leading '-' is rejected; overflow fails) -/
 def parseIndex (s : Str) : Option Nat :=
   match scanInt s with
   | none => none
-  | some (neg, v) => if v ≥ 2 ^ 64 then none else some (if neg then (2 ^ 64 - v) % 2 ^ 64 else v)
+  | some (neg, v) => if neg || v ≥ 2 ^ 64 then none else some v
 
 /-- `stringify(n)` (decimal) -/
 def natStr (n : Nat) : Str := Nat.toDigits 10 n
